@@ -201,6 +201,36 @@ Proof.
 Qed.
 Print Assumptions C03_rtsp_error_refuted.
 
+(* ============================================== send faults and the dispatcher *)
+
+(* a request whose write fails (transport.write / send_processor / connection.send raising) leaves
+   nothing behind that could take a later response: MRP and plain HTTP are unchanged, Companion
+   only uses up the transaction id, RTSP uses up the CSeq and keeps an entry nobody waits on - the
+   FIFO of the connection is untouched.  (The FIFO and matching theorems above hold for histories
+   that contain such failed sends: h_reqs / c_req_waiters count the requests that were SENT.) *)
+Theorem C03_send_fault_leaves_no_waiter : forall w,
+  (forall s, mstep s (MReqFail w) = (s, [MSendErr w])) /\
+  (forall s, hstep s (HReqFail w) = (s, [HSendErr w])) /\
+  (forall s, c_q (fst (cstep s (CReqFail w))) = c_q s /\ c_wait (fst (cstep s (CReqFail w))) = c_wait s /\
+             (c_next s < c_next (fst (cstep s (CReqFail w))))%N) /\
+  (forall s, r_http (fst (rstep s (RReqFail w))) = r_http s /\ r_ph1 (fst (rstep s (RReqFail w))) = r_ph1 s /\
+             r_ph2 (fst (rstep s (RReqFail w))) = r_ph2 s).
+Proof. intro w. repeat split; simpl; lia. Qed.
+Print Assumptions C03_send_fault_leaves_no_waiter.
+
+(* MessageDispatcher.dispatch: exactly the listeners whose filter accepts the message are called,
+   in registration order, each once; a listener that rejects it does not affect any other listener. *)
+Theorem C03_dispatch_each_accepting_listener_once : forall a l b,
+  (forall x, In x (dispatch_calls (a ++ b)) <-> In (true, x) (a ++ b)) /\
+  dispatch_calls (a ++ (false, l) :: b) = dispatch_calls (a ++ b) /\
+  dispatch_calls (a ++ (true, l) :: b) = dispatch_calls a ++ l :: dispatch_calls b /\
+  (NoDup (map snd (a ++ b)) -> NoDup (dispatch_calls (a ++ b))).
+Proof.
+  intros a l b. split; [intro x; apply dispatch_in|]. split; [apply dispatch_rejecting|].
+  split; [apply dispatch_accepting|apply dispatch_nodup].
+Qed.
+Print Assumptions C03_dispatch_each_accepting_listener_once.
+
 (* ========================================================= non-vacuity examples *)
 Example C03_ex_mrp_fresh :
   let h := [MReq 0 (KId 7); MReq 1 (KType 34); MMsg (MkMsg None 34 5); MMsg (MkMsg (Some 7%N) 2 6);
